@@ -248,7 +248,7 @@ func c15(args []string) {
 	}
 	pool := c15Pool(rng, npool)
 	start := time.Date(2023, 5, 10, 12, 0, 0, 0, time.UTC)
-	levels := []slog.Level{slog.LevelDebug, slog.LevelInfo}
+	levels := []slog.Level{slog.LevelDebug, slog.LevelInfo, slog.LevelWarn} // (Warn: a level no display code mentions)
 	var mu sync.Mutex
 	emit := func(ev c15Event) {
 		mu.Lock()
